@@ -1,17 +1,16 @@
 package zz
-import ("testing"; "encoding/json"; "github.com/jsightapi/jsight-schema-core/notations/jschema"; "github.com/jsightapi/jsight-schema-core/openapi")
+import ("testing"; "fmt"; "github.com/jsightapi/jsight-schema-core/notations/jschema")
 func TestZZ(t *testing.T) {
-	for _, p := range []string{`@a // {or: ["@a", "@b"]}`, `@a // {or: ["@b", "@a"]}`, `@a // {or: ["@b", "string"]}`, `@a // {or: [{type: "@a"}, {type:"string", minLength: 1}]}`, `@a | @b // {type: "mixed"}`, `@a // {type: "@a"}`,`{"k": @a // {type: "@a", optional: true}
-}`} {
-	root := jschema.New("@main", p)
-	root.AddType("@a", jschema.New("@a", `1`))
-	root.AddType("@b", jschema.New("@b", `"s"`))
-	err := root.Check()
-	a, _ := root.GetAST()
-	b, _ := json.Marshal(a.Rules)
-	ex, exerr := root.Example()
-	var o []byte
-	if err == nil { o, _ = openapi.NewSchemaObject(root).MarshalJSON() }
-	t.Logf("%s\n  check=%v\n  value=%q rules=%s\n  ex=%s %v\n oas=%s", p, err, a.Value, b, ex, exerr, o)
+	res := map[string]int{}
+	for i := 0; i < 300; i++ {
+		root := jschema.New("@main", `{"x": @a}`)
+		a := jschema.New("@a", `{"y": @b}`)
+		b := jschema.New("@b", `{"z": @c}`)
+		c := jschema.New("@c", `1 // {or: [{type: "integer", min: 0}, {type: "string"}]}`)
+		b.AddType("@c", c)
+		a.AddType("@b", b)
+		root.AddType("@a", a)
+		res[fmt.Sprint(root.Check())]++
 	}
+	for k, v := range res { t.Logf("%d x %.150s", v, k) }
 }
